@@ -47,6 +47,11 @@ var (
 // processor constructors obtain from FBaseProcessor.GetWriteMutex() (trusted; see DESIGN.md).
 var aliases = map[string]string{"FBaseProcessorFunction.writeMu": "FBaseProcessor.writeMu"}
 
+// callRoots: the calls whose duration C13 bounds by the FContext timeout; their masks are emitted so that
+// the Lean side can decide that no lifecycle lock (held across the underlying Open / Close) is on their path.
+var callRoots = []string{"fAdapterTransport.Request", "fAdapterTransport.Oneway", "fNatsTransport.Request", "fNatsTransport.Oneway",
+	"fHTTPTransport.Request", "fHTTPTransport.Oneway"}
+
 // tags: which lock a mutex is, for the property-specific theorems (0 = unclassified, counted everywhere).
 var tags = map[string]int{
 	"fRegistryImpl.mu": 1, "fAdapterTransport.mu": 2, "TFramedTransport.mu": 3, "FContextImpl.mu": 4,
@@ -539,6 +544,15 @@ func main() {
 			}
 		}
 	}
+	for _, rt := range callRoots {
+		if byName[rt] == nil {
+			fail("call root " + rt + " not found in lib/go")
+		}
+		if !inR[rt] {
+			inR[rt] = true
+			work = append(work, rt)
+		}
+	}
 	for len(work) > 0 {
 		g := byName[work[len(work)-1]]
 		work = work[:len(work)-1]
@@ -648,6 +662,13 @@ func main() {
 			sep = ""
 		}
 		fmt.Fprintf(&b, "  ⟨%d, %s, %s, [%s], %s, %s⟩%s  -- %s\n", i, ints(acq), ints(calls), strings.Join(hc, ", "), ints(relock), ints(leaks), sep, f.name)
+	}
+	b.WriteString("]\n\n/-- Request / Oneway of the client transports (the calls C13 bounds by the FContext timeout). -/\ndef callRoots : List Nat := [")
+	for i, rt := range callRoots {
+		if i > 0 {
+			b.WriteString(", ")
+		}
+		fmt.Fprintf(&b, "%d", fid[rt])
 	}
 	b.WriteString("]\n\nend FV.Generated.Locks\n")
 	// human-readable report of what breaks the discipline (the Lean side decides; this is for the replay file)
